@@ -1661,6 +1661,13 @@ class Router:
             print("Incongruent Timestamp Detected!")
         except DuplicatedPacketException:
             print("Packet is duplicated")
+            # §F.3: a duplicate overheard while the copy is still waiting in the CBF
+            # buffer stops its timer and discards the copy.
+            cbf_key = (gbc_extended_header.so_pv.gn_addr, gbc_extended_header.sn)
+            with self._cbf_lock:
+                buffered_timer = self._cbf_buffer.pop(cbf_key, None)
+            if buffered_timer is not None:
+                buffered_timer.cancel()
         except DecodeError as e:
             print(str(e))
         return None
